@@ -283,7 +283,7 @@ func (r *Receiver) SegmentHandlerFunc(w http.ResponseWriter, req *http.Request) 
 	log.Debug("Receiving file", "url", path, "contentLength", contentLength, "totSize", rsd.totSize)
 	var buf []byte
 	if contentLength > 0 {
-		buf = make([]byte, contentLength)
+		buf = make([]byte, min(contentLength, 16<<20))
 	} else {
 		buf = make([]byte, 1024)
 	}
